@@ -592,7 +592,7 @@ func (f *STFS) OpenFile(name string, flag int, perm os.FileMode) (afero.File, er
 		return nil, config.ErrIsDirectory
 	}
 
-	return NewFile(
+	file := NewFile(
 		f.readOps,
 		f.writeOps,
 
@@ -611,7 +611,16 @@ func (f *STFS) OpenFile(name string, flag int, perm os.FileMode) (afero.File, er
 
 		f.onHeader,
 		f.log,
-	), nil
+	)
+
+	// Truncate existing content now so that closing the file without writing to it still empties it
+	if flags.Truncate && flags.Write && hdr.Typeflag == tar.TypeReg && hdr.Size > 0 {
+		if err := file.enterWriteMode(); err != nil {
+			return nil, err
+		}
+	}
+
+	return file, nil
 }
 
 func (f *STFS) Remove(name string) error {
